@@ -194,7 +194,23 @@ func (c *Ctx) layoutInFunc(pk *packages.Package, file *ast.File, fd *ast.FuncDec
 						}
 						if rr, ok := rngKey[ko]; ok {
 							if v, _ := classifyRange(rr); v != "own" {
-								okPerm = false
+								// ranging over the permutation slice itself is as good when it was made with the object's own
+								// length: `ord := make([]int, len(o.V)); for i := range ord { ord[i] = i }`
+								ownLen := false
+								if c.objOf(rr) == so {
+									if df := single(so); df != nil {
+										if mk, ok := unparen(df).(*ast.CallExpr); ok && c.calleeName(mk) == "builtin.make" && len(mk.Args) >= 2 {
+											if ln, ok := unparen(mk.Args[1]).(*ast.CallExpr); ok && c.calleeName(ln) == "builtin.len" && len(ln.Args) == 1 {
+												if s3, ok := unparen(ln.Args[0]).(*ast.SelectorExpr); ok && c.objOf(s3) == types.Object(vField) && canon(s3.X, 0) == me {
+													ownLen = true
+												}
+											}
+										}
+									}
+								}
+								if !ownLen {
+									okPerm = false
+								}
 							}
 						} else {
 							okPerm = false
